@@ -107,7 +107,8 @@ Scaled(net, r, s, env) ==
 Quot(e, s, env, h) ==
     LET up == Eval(e, [env EXCEPT ![s] = RMul(@, RAdd(ROne, h))])
         dn == Eval(e, [env EXCEPT ![s] = RMul(@, RSub(ROne, h))])
-    IN  IF IsBad(up) \/ IsBad(dn) THEN Bad ELSE RDiv(RSub(up, dn), RMul(RMul(RInt(2), h), env[s]))
+    IN  \* a RELATIVE displacement of a zero value is no displacement: the quotient is undefined there
+        IF IsBad(up) \/ IsBad(dn) \/ RIsZero(env[s]) THEN Bad ELSE RDiv(RSub(up, dn), RMul(RMul(RInt(2), h), env[s]))
 
 \* degree of e in s is at most 2 (then the symmetric quotient is exact for every h)
 RECURSIVE Deg(_, _)
